@@ -67,7 +67,7 @@ theorem noNewPolicy_moves {cfg : Cfg} {K : Kind → Bool} {a b : Abs} (m : Moves
     cases m
     case store h ps => rw [hsb] at h; cases h
     case expire host => exact ⟨fun k p hg => hn k p (dictGet_dictDel hg), hf⟩
-    case conn f _ => simp at hk; omega
+    case conn f _ _ => simp at hk; omega
     all_goals exact ⟨hn, hf⟩
 
 /-- with the stub driver no socket is ever opened by a handler -/
@@ -77,7 +77,7 @@ theorem sock_const_stub {cfg : Cfg} {K : Kind → Bool} (hr : cfg.realDriver = f
   | refl => rfl
   | step _ m ih =>
     cases m
-    case conn f h => rw [hr] at h; cases h
+    case conn f h _ => rw [hr] at h; cases h
     all_goals exact ih
 
 end C09
